@@ -205,11 +205,37 @@ fn run_on<D: Store>(f: &[&str]) -> String {
     execute(&mut d, b.entry_jump, input)
 }
 
+/// store `simpleclone`: the program is built into a SimpleGarnishData with the host installed, its constants are sealed
+/// (`set_end_of_constant`), and the program is executed on `clone_with_aux_without_data()` of that object — the way a
+/// host reuses one built object for many executions. The clone must behave like the original, host callbacks included.
+fn run_on_simple_clone(f: &[&str]) -> String {
+    let src = unescape(f[3]);
+    let mut d = SimpleStore::create(parse_host(f[5]));
+    let b = match compile_into(&mut d, &src) {
+        Ok(b) => b,
+        Err(e) => return e.to_string(),
+    };
+    let last = d.get_data().len().saturating_sub(1);
+    if d.set_end_of_constant(last).is_err() {
+        return "SETUP-ERR set_end_of_constant".to_string();
+    }
+    let mut c = match d.clone_with_aux_without_data() {
+        Ok(c) => c,
+        Err(_) => return "SETUP-ERR clone".to_string(),
+    };
+    let input = match input_of(&mut c, f[4]) {
+        Ok(a) => a,
+        Err(e) => return format!("SETUP-ERR {}", e),
+    };
+    execute(&mut c, b.entry_jump, input)
+}
+
 pub fn run_case(f: &[&str]) -> String {
     if f.len() < 6 {
         return "BAD-CASE fields".into();
     }
     match f[2] {
+        "simpleclone" => run_on_simple_clone(f),
         "simple" => run_on::<SimpleStore>(f),
         "basic" => run_on::<BasicStore>(f),
         s => format!("BAD-CASE store {}", s),
